@@ -2,6 +2,7 @@ package rules
 
 import (
 	"fmt"
+	"go/constant"
 	"go/token"
 	"go/types"
 	"sort"
@@ -829,50 +830,37 @@ func runC12(c *core.Ctx) core.Meta {
 	}
 
 	// ---------------- R12.14 a command's task is closed before its waiters are released ----------------
-	st14 := c.Rule("R12.14", "in every function of the driver that retires a command (calls CommandQueue.Dequeue), helpers of the package expanded, no call into the tracing package (EndTask, StartTask, AddTaskStep ...) is reachable after the Dequeue within the same pass: Dequeue releases the application thread, which reads the kernel-time and busy-time tracers right after the last command (Runner.Run reports without waiting for the engine); a task that is ended afterwards is missing from that report or races with it", 4)
-	if deq := c.SSAFunc(driverPkg, "CommandQueue.Dequeue"); deq != nil {
-		isTrace := func(in ssa.Instruction) bool {
-			cc := core.CallOf(in)
-			if cc == nil {
-				return false
-			}
-			cal := cc.StaticCallee()
-			return cal != nil && cal.Pkg != nil && strings.HasSuffix(cal.Pkg.Pkg.Path(), "/tracing")
+	checkTraceAfterRelease(c, pd, "R12.14")
+
+	// ---------------- R12.18 the running flag falls only with the command ----------------
+	st18 := c.Rule("R12.18", "a queue stops counting as running only when its head command is retired: after every store CommandQueue.IsRunning = false the same pass reaches CommandQueue.Dequeue (directly or through a helper of the package) on every path to the function's return. A flag cleared while the command stays at the head (a kernel on a unified device still waiting for the other GPUs' responses) lets processNewCommand start the same command again on the next tick: the kernel runs repeatedly, the command is never dequeued and the drain never returns", 4)
+	pd.Instrs(func(fn *ssa.Function, in ssa.Instruction) {
+		sto, ok := storeToField(in, "CommandQueue.IsRunning")
+		if !ok {
+			return
 		}
-		for _, fn := range pd.Funcs {
-			direct := false
-			for _, b := range fn.Blocks {
-				for _, in := range b.Instrs {
-					if dequeues(in) {
-						direct = true
-					}
-				}
-			}
-			if !direct {
-				continue
-			}
-			c.MarkAnalysed(fn)
-			g := core.BuildGraph(fn, 2, func(cal *ssa.Function) bool { return cal.Pkg == fn.Pkg && cal != deq })
-			for _, n := range g.Nodes {
-				cc := core.CallOf(n.Instr)
-				if cc == nil || cc.StaticCallee() != deq {
-					continue
-				}
-				st14.Instances++
-				var late *core.Node
-				okW := g.Walk(core.After(n, nil), core.WalkOpts{ForwardOnly: true}, func(x core.State) {
-					if isTrace(x.N.Instr) && late == nil {
-						late = x.N
-					}
-				})
-				st14.Ob(okW && late == nil)
-				st14.Sample("%s: nothing is traced after Dequeue: %v", core.FuncName(fn), late == nil)
-				if late != nil {
-					c.ReportAt("R12.14", fn, n.Instr.Pos(), "trace-after-release:"+core.FuncName(fn), core.InstrString(late.Instr)+" ("+core.FuncName(late.Fn())+") is reachable after the command was dequeued: the application thread waiting in DrainCommandQueue is released first and can read or close the tracers while the command's task is still open; the last command's time is missing from the report in that schedule")
-				}
-			}
+		if k, isC := sto.Val.(*ssa.Const); !isC || k.Value == nil || constant.BoolVal(k.Value) {
+			return
 		}
-	}
+		g := core.BuildGraph(fn, 0, nil)
+		n := g.NodeOf(in)
+		if n == nil {
+			return
+		}
+		st18.Instances++
+		c.MarkAnalysed(fn)
+		var leak *core.Node
+		okW := g.Walk(core.After(n, nil), core.WalkOpts{ForwardOnly: true, Stop: func(m *core.Node) bool { return dequeues(m.Instr) }}, func(x core.State) {
+			if _, isRet := x.N.Instr.(*ssa.Return); isRet && leak == nil {
+				leak = x.N
+			}
+		})
+		st18.Ob(okW && leak == nil)
+		st18.Sample("%s: IsRunning = false is followed by Dequeue on every path: %v", core.FuncName(fn), leak == nil)
+		if leak != nil {
+			c.ReportAt("R12.18", fn, in.Pos(), "running-flag-cleared-without-dequeue:"+core.FuncName(fn), core.FuncName(fn)+" clears the queue's running flag and can return ("+c.Position(leak.Instr.Pos())+") without dequeuing the command: the command is still at the head, the queue looks idle, and the next tick starts it again (a unified multi-GPU kernel is re-issued to every GPU after each response; the queue is never drained)")
+		}
+	})
 
 	// ---------------- R12.15 host data is touched when the command runs, not when it is enqueued ----------------
 	st15 := c.Rule("R12.15", "a copy command reads its host source and writes its host destination when it is processed at the head of its queue (simulation side), not when it is enqueued: no function that an exported Enqueue* method of the driver reaches by static calls inside the package encodes or decodes host data (encoding/binary.Write / Read). A source serialised at enqueue time misses what earlier commands of the same queue write into that host buffer (EnqueueMemCopyD2D stages its tail bytes through one: D2H into tmp, then H2D from tmp)", 3)
@@ -1181,4 +1169,83 @@ func checkHostWritesAfterRelease(c *core.Ctx, pd *PkgInfo, prov *core.Prov, rule
 	if nWrites < 2 {
 		c.Report(core.Finding{Rule: rule, Kind: "floor", Pkg: driverPkg, Func: "-", Detail: "host-writes", Msg: fmt.Sprintf("%d writes into a command's host destination recognised, 3 confirmed by hand: the rule lost its subject", nWrites)})
 	}
+}
+
+// checkTraceAfterRelease (R12.14, shared with C05 as R05.11): nothing is traced for a command
+// after CommandQueue.Dequeue released the application thread.
+func checkTraceAfterRelease(c *core.Ctx, pd *PkgInfo, rule string) {
+	// a call that dequeues: CommandQueue.Dequeue itself or a function of the package that reaches it
+	deqFn := c.SSAFunc(driverPkg, "CommandQueue.Dequeue")
+	deqReach := map[*ssa.Function]bool{}
+	for changed := true; changed; {
+		changed = false
+		for _, fn := range pd.Funcs {
+			if deqReach[fn] {
+				continue
+			}
+			for _, b := range fn.Blocks {
+				for _, in := range b.Instrs {
+					if cc := core.CallOf(in); cc != nil {
+						if cal := cc.StaticCallee(); cal != nil && (cal == deqFn || deqReach[cal]) && !deqReach[fn] {
+							deqReach[fn] = true
+							changed = true
+						}
+					}
+				}
+			}
+		}
+	}
+	dequeues := func(in ssa.Instruction) bool {
+		cc := core.CallOf(in)
+		if cc == nil {
+			return false
+		}
+		cal := cc.StaticCallee()
+		return cal != nil && (cal == deqFn || deqReach[cal])
+	}
+	st14 := c.Rule(rule, "in every function of the driver that retires a command (calls CommandQueue.Dequeue), helpers of the package expanded, no call into the tracing package (EndTask, StartTask, AddTaskStep ...) is reachable after the Dequeue within the same pass: Dequeue releases the application thread, which reads the kernel-time and busy-time tracers right after the last command (Runner.Run reports without waiting for the engine); a task that is ended afterwards is missing from that report or races with it", 4)
+	if deq := c.SSAFunc(driverPkg, "CommandQueue.Dequeue"); deq != nil {
+		isTrace := func(in ssa.Instruction) bool {
+			cc := core.CallOf(in)
+			if cc == nil {
+				return false
+			}
+			cal := cc.StaticCallee()
+			return cal != nil && cal.Pkg != nil && strings.HasSuffix(cal.Pkg.Pkg.Path(), "/tracing")
+		}
+		for _, fn := range pd.Funcs {
+			direct := false
+			for _, b := range fn.Blocks {
+				for _, in := range b.Instrs {
+					if dequeues(in) {
+						direct = true
+					}
+				}
+			}
+			if !direct {
+				continue
+			}
+			c.MarkAnalysed(fn)
+			g := core.BuildGraph(fn, 2, func(cal *ssa.Function) bool { return cal.Pkg == fn.Pkg && cal != deq })
+			for _, n := range g.Nodes {
+				cc := core.CallOf(n.Instr)
+				if cc == nil || cc.StaticCallee() != deq {
+					continue
+				}
+				st14.Instances++
+				var late *core.Node
+				okW := g.Walk(core.After(n, nil), core.WalkOpts{ForwardOnly: true}, func(x core.State) {
+					if isTrace(x.N.Instr) && late == nil {
+						late = x.N
+					}
+				})
+				st14.Ob(okW && late == nil)
+				st14.Sample("%s: nothing is traced after Dequeue: %v", core.FuncName(fn), late == nil)
+				if late != nil {
+					c.ReportAt(rule, fn, n.Instr.Pos(), "trace-after-release:"+core.FuncName(fn), core.InstrString(late.Instr)+" ("+core.FuncName(late.Fn())+") is reachable after the command was dequeued: the application thread waiting in DrainCommandQueue is released first and can read or close the tracers while the command's task is still open; the last command's time is missing from the report in that schedule")
+				}
+			}
+		}
+	}
+
 }
